@@ -41,34 +41,49 @@ def _bounded(oid, fn, text, props, fails, cov):
     return o
 
 
+def _merge(results, stat_keys):
+    fails, stats = {}, {k: 0 for k in stat_keys}
+    for r in results:
+        for k, v in r["failures"].items():
+            fails.setdefault(k, []).extend(v)
+        for k in stat_keys:
+            stats[k] += r["stats"].get(k, 0)
+    return fails, stats
+
+
 def link_pipeline(ctx):
     out = []
-    n = 250 if ctx.tier == "quick" else 3000
+    thorough = ctx.tier == "thorough"
+    chunks = 12 if thorough else 1
+    n = 1200 if thorough else 250
+    allp = tuple(sorted({p for c in CLAUSES.values() for p in c[0]}))
     try:
-        r = native.one({"cmd": "pipeline_diff", "count": n, "seed": ctx.seed}, timeout=3000)
+        rs = native.parallel([{"cmd": "pipeline_diff", "count": n, "seed": ctx.seed * 1000 + i} for i in range(chunks)], workers=12, timeout=3000)
     except Exception as e:   # noqa
-        return [Obl("bounded:pipeline/run", "pipeline", "bounded", "differential runs", status=ERROR, backend="native-bounded", bounded=True, detail=repr(e)[-800:],
-                    props=tuple(sorted({p for c in CLAUSES.values() for p in c[0]})))]
-    cov = {"evaluations": r["stats"]["calls"], "programs": r["stats"]["programs"], "distinct_outcomes": r["stats"]["distinct_outcomes"], "bound": r["bound"]}
-    if r["failures"].get("spec-self-check"):
+        return [Obl("bounded:pipeline/run", "pipeline", "bounded", "differential runs", status=ERROR, backend="native-bounded", bounded=True, detail=repr(e)[-800:], props=allp)]
+    fails, st = _merge(rs, ["calls", "programs", "distinct_outcomes", "module_execs"])
+    cov = {"evaluations": st["calls"], "programs": st["programs"], "distinct_outcomes": st["distinct_outcomes"],
+           "bound": "%d x (%s)" % (chunks, rs[0]["bound"])}
+    if fails.get("spec-self-check"):
         out.append(Obl("bounded:pipeline/spec-self-check", "spec", "bounded", "generator/renderer/reference parser round-trip", status=ERROR, backend="native-bounded", bounded=True,
-                       detail=str(r["failures"]["spec-self-check"][:1]), props=("C02", "C05", "C07")))
+                       detail=str(fails["spec-self-check"][:1]), props=("C02", "C05", "C07")))
     for clause, (props, text) in CLAUSES.items():
         out.append(_bounded("bounded:pipeline/%s" % clause, "pyab_experiment.experiment_evaluator:ExperimentEvaluator", text + " (generated programs x inputs near every literal)",
-                            props, r["failures"].get(clause, []), cov))
+                            props, fails.get(clause, []), cov))
     try:
-        r3 = native.one({"cmd": "tv_diff", "count": 200 if ctx.tier == "quick" else 3000, "seed": ctx.seed}, timeout=3000)
+        r3s = native.parallel([{"cmd": "tv_diff", "count": 1500 if thorough else 200, "seed": ctx.seed * 1000 + i} for i in range(chunks)], workers=12, timeout=3000)
+        f3 = [f for r in r3s for f in r["failures"]]
         out.append(_bounded("bounded:pipeline/codegen==D(ast)", "pyab_experiment.codegen.python.python_generator:PythonCodeGen.generate",
                             "translation validation: the Python AST of the real generator's output (both layouts) equals D(spec AST) on generated programs",
-                            ("C02", "C03", "C05", "C09", "C10", "C12", "C13", "C14", "C01"), r3["failures"], {"evaluations": r3["evaluations"], "bound": r3["bound"]}))
+                            ("C02", "C03", "C05", "C09", "C10", "C12", "C13", "C14", "C01"), f3, {"evaluations": sum(r["evaluations"] for r in r3s), "bound": "%d x (%s)" % (chunks, r3s[0]["bound"])}))
     except Exception as e:   # noqa
         out.append(Obl("bounded:pipeline/codegen-run", "pipeline", "bounded", "translation validation runs", status=ERROR, backend="native-bounded", bounded=True, detail=repr(e)[-800:], props=("C02", "C14")))
-    m = 40 if ctx.tier == "quick" else 400
     try:
-        r2 = native.one({"cmd": "mutants_diff", "count": m, "seed": ctx.seed}, timeout=3000)
-        cov2 = {"evaluations": r2["stats"]["mutants"], "rejected_by_reference": r2["stats"]["rejected_by_ref"], "accepted_by_reference": r2["stats"]["accepted_by_ref"], "bound": r2["bound"]}
+        r2s = native.parallel([{"cmd": "mutants_diff", "count": 150 if thorough else 40, "seed": ctx.seed * 1000 + i} for i in range(chunks)], workers=12, timeout=3000)
+        f2, st2 = _merge(r2s, ["mutants", "rejected_by_ref", "accepted_by_ref"])
+        cov2 = {"evaluations": st2["mutants"], "rejected_by_reference": st2["rejected_by_ref"], "accepted_by_reference": st2["accepted_by_ref"], "bound": "%d x (%s)" % (chunks, r2s[0]["bound"])}
         for clause, (props, text) in MUT_CLAUSES.items():
-            out.append(_bounded("bounded:mutants/%s" % clause, "pyab_experiment.experiment_evaluator:ExperimentEvaluator", text + " (token-level mutants)", props, r2["failures"].get(clause, []), cov2))
+            out.append(_bounded("bounded:mutants/%s" % clause, "pyab_experiment.experiment_evaluator:ExperimentEvaluator", text + " (token-level mutants)", props, f2.get(clause, []), cov2))
     except Exception as e:   # noqa
         out.append(Obl("bounded:mutants/run", "pipeline", "bounded", "mutant differential runs", status=ERROR, backend="native-bounded", bounded=True, detail=repr(e)[-800:], props=("C06", "C07")))
     return out
